@@ -114,6 +114,15 @@ class Folder:
                                     and t.attr == e.attr for t in n.targets)]
                     if len(vals) == 1:
                         ienv = dict(self.init_env.get(cls.qualname, {}))
+                        # locals of __init__ bound (once, by a plain assignment) before the attribute is set
+                        for st in init.node.body:
+                            if isinstance(st, ast.Assign) and st.value is vals[0]:
+                                break
+                            if isinstance(st, ast.Assign) and len(st.targets) == 1 and isinstance(st.targets[0], ast.Name):
+                                try:
+                                    ienv[st.targets[0].id] = self._e(init.unit.modname, st.value, ienv, init.cls, depth + 1)
+                                except Unfoldable:
+                                    pass
                         return self._e(init.unit.modname, vals[0], ienv, init.cls, depth + 1)
                 raise Unfoldable(f"self.{e.attr}")
             d = dotted(e)
